@@ -14,7 +14,9 @@ RULE = ("(A) limit configs (limit_request_line / fields / field_size incl. 0 and
         "documented 'size' may or may not include CRLF. (B) enumerated endless metered sources that never send the "
         "delimiter awaited in request line / header line / header block / chunk-size line / chunk extension / trailer "
         "line / trailer block / PROXY line, x configs x block sizes; oracle: the parser raises before consuming "
-        "B(cfg) = 2*(limit_request_line + max_buffer_headers) + 64 KiB. non-trivial = some size within 3 of its limit, or an "
+        "B(cfg) = 2*(limit_request_line + max_buffer_headers) + 64 KiB (sources include tails made only of CR or only of LF bytes). (C) real "
+        "workers of every class: a client trickles an endless request line / header line / header block in 256-byte pieces 5 ms apart, as "
+        "first or second request of a connection: a reply or a close must come before B(cfg) bytes were sent. non-trivial = some size within 3 of its limit, or an "
         "endless source; distinct by case hash")
 ASSUMPTIONS = [
     "0 = unlimited settings exempt the item they unlimit from the bound (limit_request_line=0 -> request/PROXY line)",
@@ -101,6 +103,8 @@ def build_limits(case):
 
 
 def run_case(case):
+    if case["kind"] == "real":
+        return run_real(dict(case, kind=case["wkind"]))
     if case["kind"] == "endless":
         return run_endless(case)
     stream, m = build_limits(case)
@@ -209,6 +213,13 @@ ENDLESS = {
     "header-block": (b"GET / HTTP/1.1\r\n", b"X-A: v\r\n" * 8, False, None),
     "header-block-underscore": (b"GET / HTTP/1.1\r\n", b"X_A: v\r\n" * 8, False, None),
     "header-cr-only": (b"GET / HTTP/1.1\r\n", b"X-A: v\r" * 8, False, None),
+    # an unterminated tail made of nothing but CR (or LF, or CR LF CR without the final LF... ) bytes
+    "header-cr-run": (b"GET / HTTP/1.1\r\nHost: a", b"\r" * 64, False, None),
+    "header-lf-run": (b"GET / HTTP/1.1\r\nHost: a", b"\n" * 64, False, None),
+    "header-cr-run-after-crlf": (b"GET / HTTP/1.1\r\nHost: a\r\n", b"\r" * 64, False, None),
+    "request-line-cr-run": (b"GET /", b"\r" * 64, False, "line0"),
+    "trailer-cr-run": (b"POST / HTTP/1.1\r\nTransfer-Encoding: chunked\r\n\r\n0\r\nX-T: v", b"\r" * 64, True, None),
+    "chunk-size-cr-run": (b"POST / HTTP/1.1\r\nTransfer-Encoding: chunked\r\n\r\n5", b"\r" * 64, True, None),
     "chunk-size-digits": (b"POST / HTTP/1.1\r\nTransfer-Encoding: chunked\r\n\r\n1", b"0" * 64, True, None),
     "chunk-size-zeros": (b"POST / HTTP/1.1\r\nTransfer-Encoding: chunked\r\n\r\n", b"0" * 64, True, None),
     "chunk-ext": (b"POST / HTTP/1.1\r\nTransfer-Encoding: chunked\r\n\r\n5;", b"e" * 64, True, None),
@@ -227,7 +238,88 @@ ENDLESS_CFGS = [
 BLOCKS = [1, 7, 1024, 8192]
 
 
+REAL_SOURCES = {
+    "header-line": (b"GET / HTTP/1.1\r\nX-A: ", b"v"),
+    "request-line": (b"GET /", b"a"),
+    "header-block": (b"GET / HTTP/1.1\r\n", b"X-A: v\r\n"),
+}
+
+
+def run_real(case):
+    """engine R: a client trickles an endless head to a real worker in small pieces with pauses (each piece a network read and an
+    event-loop turn of its own), as the first or the second request on the connection: the server must answer or close before
+    B(cfg) bytes have been sent"""
+    import select
+    import time
+    from vlib import renv
+    kind = case["kind"]
+    limits = {"limit_request_line": 64, "limit_request_fields": 4, "limit_request_field_size": 32}
+    bound = 2 * (64 + 4 * 34 + 4) + 65536
+    srv = renv.Server(kind=kind, workers=1, bind="tcp", graceful=2, timeout=30, threads=2 if kind == "gthread" else None, keepalive=5,
+                      extra=["--limit-request-line", "64", "--limit-request-fields", "4", "--limit-request-field_size", "32"])
+    vio = []
+    try:
+        if not srv.wait_ready():
+            return Outcome([], False, ["engine:R", "inconclusive:not-ready"])
+        prefix, unit = REAL_SOURCES[case["source"]]
+        c = srv.connect(5.0)
+        sent = 0
+        reacted = None
+        try:
+            if case.get("second") and kind != "sync":
+                c.sendall(b"GET /pid HTTP/1.1\r\nHost: x\r\n\r\n")
+                c.settimeout(5.0)
+                buf = b""
+                while b"\r\n\r\n" not in buf or b"pid=" not in buf:
+                    d = c.recv(65536)
+                    if not d:
+                        break
+                    buf += d
+            c.setblocking(False)
+            piece = 256
+            pending = prefix
+            while sent < bound + 40000:
+                while len(pending) < piece:
+                    pending += unit
+                out, pending = pending[:piece], pending[piece:]
+                try:
+                    c.send(out)
+                except (BlockingIOError, InterruptedError):
+                    pending = out + pending
+                except OSError as e:
+                    reacted = "send:%s" % type(e).__name__
+                    break
+                else:
+                    sent += len(out)
+                r, _, _ = select.select([c], [], [], 0.005)
+                if r:
+                    try:
+                        d = c.recv(65536)
+                    except OSError as e:
+                        reacted = "recv:%s" % type(e).__name__
+                        break
+                    reacted = "reply:%s" % d[:12].decode("latin-1") if d else "closed"
+                    break
+        finally:
+            c.close()
+        if reacted is None:
+            vio.append(Violation("bounded-buffering", "C12/real:endless-head-not-rejected:%s:%s%s" % (kind, case["source"], ":second-request" if case.get("second") else ""),
+                                 observed={"sent": sent, "bound": bound, "case": case, "log_tail": srv.logtext()[-500:]},
+                                 expected="an error reply or a close before %d bytes were sent" % bound))
+        return Outcome(vio, True, ["engine:R", "kind:" + kind, "source:" + case["source"], "second:%s" % bool(case.get("second"))],
+                       key="R|%s|%s|%s" % (kind, case["source"], case.get("second")), sample={"case": case, "sent": sent, "reaction": reacted})
+    finally:
+        srv.cleanup()
+
+
 def extra_cases(tier, seed, shard, nshards):
+    cells = [(k, src, sec) for k in ("sync", "gthread", "gevent", "eventlet") for src in sorted(REAL_SOURCES) for sec in (False, True)
+             if not (sec and k == "sync")]
+    for i, (k, src, sec) in enumerate(cells):
+        if tier == "quick" and (i + seed) % 3:
+            continue
+        if i % nshards == shard:
+            yield {"kind": "real", "engine": "R", "wkind": k, "source": src, "second": sec}
     combos = list(itertools.product(sorted(ENDLESS), range(len(ENDLESS_CFGS)), BLOCKS))
     for i, (name, ci, blk) in enumerate(combos):
         if i % nshards != shard:
